@@ -388,6 +388,15 @@ def _truncate_data_repr(data: Any, max_length: int = 200) -> str:
         return f"<{type(data).__name__}: repr failed>"
 
 
+def _wire_keys(cls: type[Any]) -> set[str]:
+    """JSON keys a dataclass variant can consume (its field names mapped through Meta.key_transform_with_dump)."""
+    mappings: dict[str, str] = {}
+    meta = getattr(cls, "Meta", None)
+    if meta is not None:
+        mappings = getattr(meta, "key_transform_with_dump", None) or {}
+    return {mappings.get(f.name, f.name) for f in dataclasses.fields(cls)}
+
+
 def _structure_union(data: Any, union_type: type) -> Any:
     """
     Structure a Union type by trying each variant.
@@ -508,17 +517,38 @@ def _structure_union(data: Any, union_type: type) -> Any:
             # Includes plain types (str, int, datetime) and generic types (List[T])
             other_variants.append(arg)
 
+    # In a union of JSON primitives a value that already has the exact type of a variant is that variant: never
+    # coerce it into another one ("00" must stay a str in Union[int, str], True must not become 1 in Union[int, bool]).
+    # (Unions with string-encoded variants such as datetime or bytes keep their in-order decoding.)
+    json_primitives = (bool, int, float, str)
+    if isinstance(data, json_primitives) and all(arg in json_primitives or arg is type(None) for arg in args):
+        for arg in args:
+            if arg is type(data):
+                return data
+
     # If data is a dict, try dataclass variants first
     if isinstance(data, dict):
         errors: list[tuple[str, str]] = []
+        first_match: Any = None
+        have_match = False
         for variant in dataclass_variants:
             try:
                 # Ensure hooks are registered for this variant
                 _register_structure_hooks_recursively(variant)
-                return converter.structure(data, variant)
+                structured = converter.structure(data, variant)
             except Exception as e:
                 errors.append((variant.__name__, str(e)))
                 continue
+            # Dataclasses ignore unknown keys, so the first variant that structures is not necessarily the
+            # right one: a variant whose required fields are a subset of the payload would silently drop the
+            # rest. Prefer the first variant that accounts for every key of the payload.
+            known_keys = _wire_keys(variant)
+            if all(key in known_keys for key in data):
+                return structured
+            if not have_match:
+                first_match, have_match = structured, True
+        if have_match:
+            return first_match
 
         # If no dataclass matched and dict fallback is available, return raw dict
         if dict_any_fallback:
